@@ -410,7 +410,70 @@ class FactEngine(object):
         t = (dtype(ks[0]) or '').replace('const ', '').strip()
         if t != 'bool':
             return [(frozenset(base + list(fs)), self.key(arm)) for (fs, arm) in self.value_cases(ks[0])]
+        x0 = peel(ks[0])
+        if x0 is not None and x0.get('kind') == 'DeclRefExpr' and (x0.get('referencedDecl') or {}).get('kind') == 'VarDecl':
+            r = self._bool_local_cases(rn, x0)
+            if r is not None:
+                return r
         return [(frozenset(base + list(fs)), v) for (fs, v) in self.bool_cases(ks[0])]
+
+    def _bool_local_cases(self, rn, ref):
+        """Cases of a returned bool local that is assigned on several paths (single-exit style): per simple path, the
+        short-circuit cases of the expression last assigned to it, with the facts holding on arrival; cases that contradict
+        a later test of the local on the same path are dropped.  None when the local is modified other than by plain
+        assignment."""
+        did = (ref.get('referencedDecl') or {}).get('id')
+        d = self.unit.by_id.get(did)
+        if d is None or d.get('kind') != 'VarDecl':
+            return None
+        vk = '%s#%s' % (d.get('name'), did)
+        writes = {}
+        for n in self.cfg.live:
+            if n.ast is None or n.kind != 'stmt':
+                continue
+            a = n.ast
+            if a is d and kids(d):
+                writes[n.id] = kids(d)[-1]
+                continue
+            for y in walk(a):
+                if y.get('kind') in ('BinaryOperator', 'CompoundAssignOperator', 'UnaryOperator') and \
+                        any((peel(l_).get('referencedDecl') or {}).get('id') == did for l_ in written_lvalues(y)):
+                    if y.get('kind') == 'BinaryOperator' and y.get('opcode') == '=' and a is y:
+                        writes[n.id] = kids(y)[1]
+                    else:
+                        return None
+        if len(writes) < 2:
+            return None
+        out = []
+        seen = set()
+        for (fs, ever, trail) in self.path_facts([rn], nodes=True, cap=4000):
+            last = None
+            for n in trail:
+                if n.id in writes:
+                    last = n
+            if last is None:
+                return None
+            for (fc, val) in self.bool_cases(writes[last.id]):
+                if isinstance(val, bool):
+                    if val and canon('==', vk, 'n:0') in fs:
+                        continue
+                    if not val and canon('!=', vk, 'n:0') in fs:
+                        continue
+                # (with value control flow in the CFG the path already fixes the operands' tests: drop the cases it refutes)
+                if any((('!=' if op == '==' else '==') if op in ('==', '!=') else None, a, b) in fs for (op, a, b) in fc):
+                    continue
+                # the operands of the assigned expression must still hold their values on arrival
+                kills = set()
+                i0 = trail.index(last)
+                for n in trail[i0:]:
+                    kills |= set(self.kills.get(n.id) or ())
+                kills.discard(vk)
+                fc2 = self._apply_kills(frozenset(fc), list(kills)) if kills else frozenset(fc)
+                item = (frozenset(fs | fc2), val)
+                if item not in seen:
+                    seen.add(item)
+                    out.append(item)
+        return out or None
 
     def value_cases(self, e):
         """[(facts, sub-expression)]: the operand a (possibly nested) conditional expression evaluates to, with the
